@@ -69,13 +69,13 @@ def function_table(chk):
             if not isinstance(tree, ast.Call):
                 ok, why = False, "not a call expression: the arguments are dropped"
             else:
-                env = {"np": np, "math": math, "x": 0.5, "y": 0.25, "z": 0.5 + 0.25j}
-                try:
-                    import scipy.special  # noqa
-                    env["scipy"] = __import__("scipy")
-                except Exception:
-                    if txt.startswith("scipy."):
-                        continue
+                # the names a generated module really has: the import lines of the numba file template
+                import ffcx.codegeneration.numba.file_template as ft
+                env = {"x": 0.5, "y": 0.25, "z": 0.5 + 0.25j}
+                tmpl = next(v for v in vars(ft).values() if isinstance(v, str) and "import numpy as np" in v)
+                for line in tmpl.splitlines():
+                    if line.startswith(("import ", "from ")) and "numba" not in line:
+                        exec(line, env)
                 eval(compile(ast.Expression(tree), "<fn>", "eval"), env)
         except (AttributeError, NameError, SyntaxError) as ex:
             ok, why = False, f"{type(ex).__name__}: {ex}"
@@ -105,14 +105,18 @@ def carray_sizes(chk, ents):
                                   {"kernel": c.name, "declared": decl, "contract": c.sizes})
 
 
-def kernels_vs_c(chk, ents):
+def kernels_vs_c(chk, ents, st="float64"):
+    cplx = st.startswith("complex")
+    npdt = {"float64": np.float64, "float32": np.float32, "complex128": np.complex128, "complex64": np.complex64}[st]
+    opts = {} if st == "float64" else {"scalar_type": st}
+
     def work(i):
         e = ents[i]
-        out = {"name": e.name, "n": 0, "bad": [], "maxrel": 0.0}
+        out = {"name": e.name + ("" if st == "float64" else f":{st}"), "n": 0, "bad": [], "maxrel": 0.0}
         rng = np.random.default_rng(chk.seed * 19 + i)
-        objs, cases, comp, mod = numeric.build(e, {})
+        objs, cases, comp, mod = numeric.build(e, opts)
         objs2 = e.build()
-        src = ffcx.compiler.compile_ufl_objects(objs2, options=pipeline.default_options(language="numba"), namespace="vf")[0][0]
+        src = ffcx.compiler.compile_ufl_objects(objs2, options=pipeline.default_options(language="numba", **opts), namespace="vf")[0][0]
         try:
             ns = load_numba_module(src)
         except SyntaxError as ex:
@@ -127,11 +131,11 @@ def kernels_vs_c(chk, ents):
             fn = cls.__dict__["tabulate_tensor"]
             ents_ = numeric.entity_choices(c, rng, False)[:2]
             for ent in ents_:
-                inp = numeric.make_data(c, rng, entity=ent, perm=[0] * c.sizes["quadrature_permutation"])
-                A = numeric.call_c(mod, kernels.compiled_kernel(comp, c), c, inp, "float64")
-                B = np.zeros(max(c.sizes["A"], 1))
+                inp = numeric.make_data(c, rng, st, entity=ent, perm=[0] * c.sizes["quadrature_permutation"], complex_data=cplx)
+                A = numeric.call_c(mod, kernels.compiled_kernel(comp, c), c, inp, st)
+                B = np.zeros(max(c.sizes["A"], 1), dtype=npdt)
                 try:
-                    fn(B, np.array(inp["w"], dtype=float), np.array(inp["c"], dtype=float), np.array(inp["coordinate_dofs"], dtype=float),
+                    fn(B, np.array(inp["w"], dtype=npdt), np.array(inp["c"], dtype=npdt), np.array(inp["coordinate_dofs"], dtype=float),
                        np.array(list(inp["entity_local_index"]) + [0, 0], dtype=np.intc)[:2],
                        np.array(list(inp["quadrature_permutation"]), dtype=np.uint8), 0)
                 except Exception as ex:
@@ -141,7 +145,7 @@ def kernels_vs_c(chk, ents):
                 rel = float(np.abs(A - B).max() / max(1.0, np.abs(A).max()))
                 out["n"] += 1
                 out["maxrel"] = max(out["maxrel"], rel)
-                if not rel <= 1e-11:
+                if not rel <= (1e-11 if st in ("float64", "complex128") else 2e-4):
                     out["bad"].append({"kernel": c.name, "what": f"numba and C tensors differ (rel {rel})"})
                     break
             # descriptor attributes
@@ -226,8 +230,13 @@ def run(chk):
     carray_sizes(chk, ents)
     small = [e for e in ents if e.name in (
         "mass_interval_p2", "mass_tri_p1", "rhs_tri_p2", "functional_tri", "ext_facet_tri", "int_facet_interval", "int_facet_tri", "vertex_tri", "math_tri",
-        "conditional_tri", "multi_rule", "subdomains", "tensor_constant", "derivative_drop", "quadrature_element", "geometry_tri",
+        "conditional_tri", "multi_rule", "subdomains", "tensor_constant", "derivative_drop", "quadrature_element", "geometry_tri", "prism",
         "expr_grad_tri", "expr_rank1", "expr_tensor", "expr_facet", "expr_interval", "expr_two")]
     kernels_vs_c(chk, small if chk.tier == "quick" else ents)
+    # complex scalar types: complex literals / conj / real / imag / math functions go through type-specific formatter paths
+    kernels_vs_c(chk, corpus.complex_forms(), "complex128")
+    if chk.tier == "thorough":
+        kernels_vs_c(chk, corpus.complex_forms(), "complex64")
+        kernels_vs_c(chk, small, "float32")
     if chk.tier == "thorough":
         chk.leanchecker([LC.LAYOUT_MODULE])
